@@ -142,6 +142,19 @@ func main() {
 
 func (rw *fileRW) off(p token.Pos) int { return rw.tf.Offset(p) }
 
+// injectAvailable reports whether the files injected into this file's package
+// define the given function (the hook is only spliced in when they do).
+func (rw *fileRW) injectAvailable(fn string) bool {
+	dir := filepath.Join(*inject, filepath.Base(filepath.Dir(rw.path)))
+	files, _ := filepath.Glob(filepath.Join(dir, "zz_*.go"))
+	for _, f := range files {
+		if b, err := os.ReadFile(f); err == nil && strings.Contains(string(b), "func "+fn+"(") {
+			return true
+		}
+	}
+	return false
+}
+
 func (rw *fileRW) replace(from, to token.Pos, text string) {
 	rw.edits = append(rw.edits, edit{rw.off(from), rw.off(to), text, 0})
 }
@@ -291,6 +304,19 @@ func rewriteFile(p *packages.Package, f *ast.File, rw *fileRW) {
 	info := p.TypesInfo
 	for _, d := range f.Decls {
 		if fd, ok := d.(*ast.FuncDecl); ok {
+			// (*Server).Handle in package p9: register the connection state with
+			// the injected export file, right after it has been created, so that
+			// state keys can include the fid table (harness/histex).
+			if p.Name == "p9" && fd.Name.Name == "Handle" && fd.Recv != nil && fd.Body != nil && rw.injectAvailable("verifRegisterConn") {
+				for _, st := range fd.Body.List {
+					if as, ok := st.(*ast.AssignStmt); ok && len(as.Lhs) == 1 {
+						if id, ok := as.Lhs[0].(*ast.Ident); ok && id.Name == "cs" && len(fd.Recv.List) == 1 && len(fd.Recv.List[0].Names) == 1 {
+							rw.insert(as.End(), "; verifRegisterConn("+fd.Recv.List[0].Names[0].Name+", cs)", 9)
+							break
+						}
+					}
+				}
+			}
 			name := fd.Name.Name
 			if fd.Recv != nil && len(fd.Recv.List) == 1 {
 				t := fd.Recv.List[0].Type
